@@ -1,3 +1,3 @@
 From Coq Require Import Extraction ExtrOcamlBasic.
-From Vivid Require Import Base.Tm System.LifecycleRun.
-Extraction "syslife_model.ml" run_syslife.
+From Vivid Require Import Base.Tm System.LifeLockRun.
+Extraction "syslife_model.ml" run_syslife2.
